@@ -730,22 +730,32 @@ func (x *Exec) readStream(st *State, rd *stream, p Val, pt types.Type) []Outcome
 	e.assume(tAnd(tEq(rl, "0"), tCmp("<", "0", pl)))
 	outs = append(outs, Outcome{e, TupleV{TV{SInt, "0"}, ErrV{Class: "1", Wrapped: "false"}}})
 	st.assume(tOr(tCmp("<", "0", rl), tEq(pl, "0")))
-	n := tIte(tCmp("<", pl, rl), pl, rl)
-	if sv, ok := p.(SliceV); ok {
-		// write n bytes at the start of the window
-		cur, _ := st.cells[sv.Cell].(TV)
-		total := x.cellLen(st, sv.Cell)
-		nv := sApp(cur.S, sApp(cur.S, sSl(cur.S, cur.E, "0", sv.Lo), sSl(SSeqI, rem, "0", n)), sSl(cur.S, cur.E, tAdd(sv.Lo, n), total))
-		if st.frozen[sv.Cell] {
-			st.kill("read into shared backing array")
-		} else {
-			st.cells[sv.Cell] = TV{cur.S, nv}
+	// a full read (the buffer is filled) and a short one are separate paths: the terms of the
+	// common case stay free of min(len(p), remaining)
+	short := st.fork()
+	short.assume(tCmp("<", rl, pl))
+	st.assume(tCmp("<=", pl, rl))
+	for _, c := range []struct {
+		s *State
+		n string
+	}{{short, rl}, {st, pl}} {
+		s, n := c.s, c.n
+		if sv, ok := p.(SliceV); ok {
+			// write n bytes at the start of the window
+			cur, _ := s.cells[sv.Cell].(TV)
+			total := x.cellLen(s, sv.Cell)
+			nv := sApp(cur.S, sApp(cur.S, sSl(cur.S, cur.E, "0", sv.Lo), sSl(SSeqI, rem, "0", n)), sSl(cur.S, cur.E, tAdd(sv.Lo, n), total))
+			if s.frozen[sv.Cell] {
+				s.kill("read into shared backing array")
+			} else {
+				s.cells[sv.Cell] = TV{cur.S, nv}
+			}
+		} else if pl != "0" {
+			s.kill("Read into a slice without local owner")
 		}
-	} else if pl != "0" {
-		st.kill("Read into a slice without local owner")
+		rd.set(s, sSl(SSeqI, rem, n, rl))
+		outs = append(outs, Outcome{s, TupleV{TV{SInt, n}, nilErr()}})
 	}
-	rd.set(st, sSl(SSeqI, rem, n, rl))
-	outs = append(outs, Outcome{st, TupleV{TV{SInt, n}, nilErr()}})
 	return outs
 }
 
